@@ -157,18 +157,21 @@ def step(fake, ppg, op, args=(), kw=None):
             want = clamp(v, *FREQ)
             if abs(fake.freq - want) > FREQ_RTOL * want:
                 viol.append(('set_freq:register-not-clamped-request', f'{sig}: frequency register {fake.freq!r}, expected {want!r}'))
-            if fake.reg != before.reg or fake.mem != before.mem:
+            if fake.reg != before.reg or fake.writes() != before.writes():
                 viol.append(('set_freq:touches-other-register', f'{sig} changed a channel register'))
     elif op in SETTERS:
         val, chs = model_args(op, args)
         e = expect_setter(op, val, chs, before)
         oor = e['oor']
         if not exc:
-            viol += e['check'](fake)
-            if fake.mem != before.mem:
+            chk = e['check'](fake)
+            if any(k.startswith('cmd:out-of-range') for k, _ in viol):    # the monitor already reports the raw value
+                chk = [(k, m) for k, m in chk if not k.endswith(':register-not-clamped-request')]
+            viol += chk
+            if fake.writes() != before.writes():
                 viol.append((f'{op}:touches-memory', f'{sig} changed the pattern memory'))
     elif op == 'reset':
-        if not exc and (fake.reg != Fake().reg or fake.freq != Fake().freq or fake.mem != before.mem):
+        if not exc and (fake.reg != Fake().reg or fake.freq != Fake().freq or fake.writes() != before.writes()):
             viol.append(('reset:state', f'{sig}: registers not at defaults / memory changed'))
     elif op == 'set_data':
         data, start, chs = args
@@ -178,10 +181,9 @@ def step(fake, ppg, op, args=(), kw=None):
         keep = min(L, MEM - start + 1)
         oor = ch_oor or keep < L
         if not exc:
-            ref = {c: dict(before.mem[c]) for c in before.mem}
+            writes = {}
             for c, row in zip(clipped, rows):
-                for i in range(keep):
-                    ref[c][start + i] = row[i]
+                writes.setdefault(c, []).append(np.array(row[:keep], dtype=np.uint8))
             blocks = {}
             for kind, c, f in fake.parsed[n_parsed:]:
                 if kind == 'data':
@@ -199,11 +201,16 @@ def step(fake, ppg, op, args=(), kw=None):
                     if addr != start + keep:
                         viol.append(('set_data:length-not-covered', f'{sig}: CH{c} blocks cover {addr - start} bits, expected {keep}'))
             for c in range(1, NCH + 1):
-                keys = set(fake.mem[c]) | set(ref[c])
-                bad = [a for a in keys if fake.bit(c, a) != ref[c].get(a, bg(c, a))]
-                if bad:
-                    viol.append(('set_data:memory-differs', f'{sig}: CH{c} memory differs from the reference at {len(bad)} '
-                                                              f'address(es), first {min(bad)}'))
+                ext = fake.extent(c)
+                lo = min(start, ext[0]) if ext else start
+                hi = max(start + keep, ext[1]) if ext else start + keep
+                ref = before.content(c, lo, hi - lo)
+                for w in writes.get(c, []):           # duplicates of a channel: the last writer wins
+                    ref[start - lo:start - lo + w.size] = w
+                bad = np.nonzero(fake.content(c, lo, hi - lo) != ref)[0]
+                if bad.size:
+                    viol.append(('set_data:memory-differs', f'{sig}: CH{c} memory differs from the reference at {bad.size} '
+                                                              f'address(es), first {int(bad[0]) + lo}'))
             if fake.reg != before.reg or fake.freq != before.freq:
                 viol.append(('set_data:touches-register', f'{sig} changed a register'))
     elif op == 'get_data':
@@ -306,10 +313,12 @@ def single_case(case):
             ntr += 1
     # dry-run mode
     lines, dexc, dnw, dissues = dry_run(op, args)
-    viol += [('dry-run:' + k, m) for k, m in dissues]
+    have = {k for k, _ in viol}
+    viol += [('dry-run:' + k, m) for k, m in dissues if k not in have]
     if dexc:
-        viol.append((f'dry-run:{dexc[1]}:raises-{dexc[0]}', f'dry-run {op}{args!r} raised {dexc[0]}: {dexc[2]}'))
-    elif info['oor'] and dnw == 0:
+        if f'{dexc[1]}:raises-{dexc[0]}' not in have:
+            viol.append((f'dry-run:{dexc[1]}:raises-{dexc[0]}', f'dry-run {op}{args!r} raised {dexc[0]}: {dexc[2]}'))
+    elif info['oor'] and dnw == 0 and f'{op}:no-warning' not in have:
         viol.append((f'dry-run:{op}:no-warning', f'dry-run {op}{args!r}: out-of-range request but no warning'))
     if not dexc and not info['exc'] and not viol and lines != set_cmds:
         viol.append(('dry-run:stream-differs', f'{op}{args!r}: printed {lines[:4]} but sent {set_cmds[:4]}'))
@@ -407,15 +416,19 @@ def agg_case(case):
     viol = list(fake.issues)
     sig = f'{op}({", ".join(f"{k}={v!r}"[:40] for k, v in kw.items())}, CHs={chs!r})'
     req, ch_oor = chan_list(chs)
-    any_ch_arg = any(k != 'freq' for k in kw)
+    any_ch_arg = any(k not in ('freq', 'order', 'data') for k in kw) or ('order' in kw and kw.get('mode') == 'PRBS') \
+        or ('data' in kw and kw.get('mode') == 'DATA')
     oor = False
     if exc:
         viol.append((f'{exc[1]}:raises-{exc[0]}', f'{sig} raised {exc[0]}: {exc[2]}'))
     else:
         touched = set()
+        oor_ops = []
         if 'freq' in kw:
             want = clamp(kw['freq'], *FREQ)
             oor |= want != kw['freq']
+            if want != kw['freq']:
+                oor_ops.append('set_freq')
             if abs(fake.freq - want) > FREQ_RTOL * want:
                 viol.append(('set_freq:register-not-clamped-request', f'{sig}: frequency register {fake.freq!r}, expected {want!r}'))
         elif fake.freq != before.freq:
@@ -424,8 +437,11 @@ def agg_case(case):
             if name in kw and (name != 'order' or kw.get('mode') == 'PRBS'):
                 e = expect_setter(sop, kw[name], chs, before)
                 oor |= e['oor']
+                if e['oor'] and not ch_oor:
+                    oor_ops.append(sop)
                 touched.add(SETTERS[sop][0])
-                viol += [(k, m) for k, m in e['check'](fake) if 'touches-other' not in k]
+                viol += [(k, m) for k, m in e['check'](fake) if 'touches-other' not in k
+                         and not (k.endswith(':register-not-clamped-request') and any(q.startswith('cmd:out-of-range') for q, _ in viol))]
             elif name == 'order' and name in kw:
                 touched.add('plen')         # statement silent on whether order is applied without mode='PRBS'
         if 'mode' in kw:
@@ -441,13 +457,13 @@ def agg_case(case):
         if 'data' in kw and kw.get('mode') == 'DATA':
             clipped, rows = data_rows((kw['data'], 1, chs))
             for c, row in zip(clipped, rows):
-                if fake.content(c, 1, len(row)) != list(row):
+                if not np.array_equal(fake.content(c, 1, len(row)), np.array(row, dtype=np.uint8)):
                     viol.append(('set_data:memory-differs', f'{sig}: CH{c} memory differs from the data'))
                     break
-        elif 'data' not in kw and fake.mem != before.mem:
+        elif 'data' not in kw and fake.writes() != before.writes():
             viol.append(('aggregate:touches-memory', f'{sig} changed the memory'))
         if oor and nw == 0:
-            viol.append(('aggregate:no-warning', f'{sig}: out-of-range request but no warning was issued'))
+            viol.append((f'{oor_ops[0] if oor_ops else "aggregate"}:no-warning', f'{sig}: out-of-range request but no warning was issued'))
         if op == '__call__' and ret != 'Done':
             pass    # return value is not part of the statement
     obs = (tuple(fake.log), exc[:2] if exc else None, nw > 0)
@@ -524,14 +540,17 @@ def data_cases(tier, seed):
     lengths = list(range(1, 2101)) + long
     for L in lengths:
         for si, start in enumerate(STARTS):
+            boundary = L % BLOCK in (0, 1, BLOCK - 1) or L in (1, 2) or L > 2100
             for ci, chs in enumerate(DATA_CH):
                 fs = forms_for(chs)
                 if tier == 'thorough':
                     use = fs + (['list1d'] if chs == 2 else [])
+                elif boundary:
+                    use = fs                               # block boundaries: full product, both forms
+                elif (L + si) % len(DATA_CH) == ci:
+                    use = [fs[(L // 3 + si) % 2]]          # elsewhere channel sets and forms rotate over L and start
                 else:
-                    use = [fs[(L + si + ci) % 2]]          # forms alternate; both forms at every block boundary
-                    if L % BLOCK in (0, 1, BLOCK - 1) or L in (1, 2):
-                        use = fs
+                    use = []
                 for f in use:
                     cases.append((seed, L, start, chs, f))
     # end of the memory: the request does not fit; the driver documents truncation with a warning
@@ -630,17 +649,19 @@ def expand(case):
     acts = bfs_actions(tier)
     viol, succ, obs = [], [], []
     ncmd = 0
+    base, _ = _replay(acts, hist)
     for ai, (op, args) in enumerate(acts):
-        fake, ppg = _replay(acts, hist)
+        fake = base.clone()
+        ppg = new_ppg(fake)
         n0 = len(fake.log)
         v, o, info = step(fake, ppg, op, args)
         ncmd += len(fake.log) - n0
         names = [acts[i][0] for i in hist] + [op]
         for k, m in v:
             viol.append((k, f'history {list(hist) + [ai]} = {names}: {m}'))
-        st = repr(fake.state())
+        st = hash_str(repr(fake.state()))
         succ.append(st)
-        obs.append((o[1:], len(o[0]), hash_str(st)))
+        obs.append((o[1:], len(o[0]), st))
     return res(viol=_dedup(viol), obs=tuple(obs), payload=succ, nontrivial=len(hist) >= 1,
                stats={'transitions': len(acts), 'commands': ncmd})
 
@@ -670,7 +691,7 @@ def run_bfs(ctx):
     acts = bfs_actions(tier)
     depth_max = 3 if ctx.quick else 4
     ctx.space('bfs.actions', len(acts))
-    init = repr(Fake().state())
+    init = hash_str(repr(Fake().state()))
     seen = {init: ()}
     frontier = [()]
     depth = 0
@@ -692,7 +713,7 @@ def run_bfs(ctx):
         print(f'[C20] bfs depth {depth}: states={len(seen)} frontier={len(frontier)} transitions={transitions}', flush=True)
     closed = not frontier
     for st in seen:
-        ctx.nt_tags.add(('bfs-state', hash_str(st)))
+        ctx.nt_tags.add(('bfs-state', st))
     ctx.extra['bfs'] = {'states': len(seen), 'transitions': transitions, 'depth': depth, 'closed': closed,
                         'unexpanded_frontier': len(frontier)}
     ctx.sample({'part': 'bfs', 'deepest_history': [repr(acts[i])[:80] for i in max(seen.values(), key=len)]})
